@@ -944,11 +944,21 @@ def list_program(rng, max_points=1 << 12):
     lit = lambda: ["c", r.randint(lo, hi + 1)]
     for _ in range(r.randint(1, 3)):
         c = r.random()
-        if c < 0.30:
+        if c < 0.22:
             body = [["e", ["b", r.choice(["<", "<=", "!=", ">", "=="]), ["it"], lit()]]]
             if r.random() < 0.3:
                 body.append(["e", ["b", "!=", ["it"], ["f", ["a"]]]] if not esg else ["e", ["b", "!=", ["it"], lit()]])
             st.append(["fe", ["l"], "it", body])
+        elif c < 0.36:
+            # implication / if-else directly inside the foreach body, guarded by a scalar (random or not)
+            guard_f = "k" if any(fd["n"] == "k" for fd in fields) and r.random() < 0.6 else "a"
+            gw = [fd for fd in fields if fd["n"] == guard_f][0]["w"]
+            cond = ["b", r.choice(["==", "!=", "<", ">"]), ["f", [guard_f]], ["c", r.randint(0, (1 << gw) - 1)]]
+            inner = ["e", ["b", r.choice(["<", "<=", "!=", ">", "=="]), ["it"], lit()]]
+            if r.random() < 0.6:
+                st.append(["fe", ["l"], "it", [["imp", cond, [inner]]]])
+            else:
+                st.append(["fe", ["l"], "it", [["if", [[cond, [inner]]], [["e", ["b", r.choice(["!=", ">="]), ["it"], lit()]]] if r.random() < 0.5 else None]]])
         elif c < 0.42:
             st.append(["fe", ["l"], "idx", [["e", ["b", r.choice(["==", "!=", ">="]), ["el", ["l"], ["idx"]],
                                                      ["idx"] if not esg else lit()]]]])
@@ -996,29 +1006,38 @@ def list_history(g, prog, ncalls=4):
     L = [fd for fd in T["fields"] if fd["n"] == "l"][0]
     hist = []
     kind = prog["_kind"]
+    cur_len = None if L.get("rsz") else (len(L["init"]) if "init" in L else L.get("sz", 0))
     for ci in range(ncalls):
         c = r.random()
         if c < 0.45 and ci > 0:
             # edit the exposed list between calls
             k = r.choice(["l_append", "l_append", "l_clear", "l_assign", "l_extend"])
-            cur_ok = True
             if k == "l_append":
                 hist.append({"op": "l_append", "o": "o0", "path": ["l"], "v": g.rand_val(L["w"], L["s"])})
+                cur_len = None if cur_len is None else cur_len + 1
             elif k == "l_extend":
                 hist.append({"op": "l_extend", "o": "o0", "path": ["l"], "v": [g.rand_val(L["w"], L["s"]) for _ in range(2)]})
+                cur_len = None if cur_len is None else cur_len + 2
             elif k == "l_clear":
                 hist.append({"op": "l_clear", "o": "o0", "path": ["l"]})
+                cur_len = None if cur_len is None else 0
             else:
-                hist.append({"op": "l_assign", "o": "o0", "path": ["l"], "v": [g.rand_val(L["w"], L["s"]) for _ in range(r.randint(0, 3))]})
+                vals = [g.rand_val(L["w"], L["s"]) for _ in range(r.randint(0, 3))]
+                hist.append({"op": "l_assign", "o": "o0", "path": ["l"], "v": vals})
+                cur_len = None if cur_len is None else len(vals)
         if r.random() < 0.2:
             for fd in T["fields"]:
                 if fd["k"] == "int" and not fd["r"]:
                     hist.append({"op": "set", "o": "o0", "path": [fd["n"]], "v": g.rand_val(fd["w"], fd["s"])})
-        if r.random() < 0.75:
+        c2 = r.random()
+        if c2 < 0.6:
             hist.append({"op": "randomize", "o": "o0"})
-        else:
-            lo, hi = (0, (1 << 2) - 1)
+        elif c2 < 0.8 or not cur_len or not L["r"]:
             hist.append({"op": "with", "o": "o0", "inline": [["e", ["b", r.choice(["<", ">", "!="]), ["f", ["a"]], ["c", r.randint(0, 3)]]]]})
+        else:
+            # pin one element inline: together with the foreach bodies this makes some calls unsatisfiable
+            i = r.randrange(cur_len)
+            hist.append({"op": "with", "o": "o0", "inline": [["e", ["b", "==", ["f", ["l", i]], ["c", g.rand_val(L["w"], L["s"])]]]]})
     return hist
 
 
